@@ -193,4 +193,110 @@ class RemoveDataFromGroups(Contract):
             ctx.oblige(f"group{i}-no-longer-lists-the-removed-data", sum(1 for g in scrubbed if g is pg) == 1)
 
 
-CONTRACTS = [RemoveEntityGuard, WorkspaceRemoveChildren, RemoveRecursively, RemoveDataFromGroups]
+class ConcatRemoveChildren(Contract):
+    """DrillholeGroup.remove_children: every listed hole that the group holds is removed from the
+    concatenated storage and leaves the group's child list; everything else stays."""
+    target = "geoh5py/shared/concatenation/concatenator.py::Concatenator.remove_children"
+    props = ("C05", "C04")
+    lenient = True
+    bounded_scope = "groups of 3 holes, requests naming 1-2 held holes and optionally a stranger (concrete list, abstract elements)"
+
+    def cases(self):
+        return [((0,), False), ((1,), True), ((0, 2), False), ((2, 1), True), ((), True)]
+
+    def setup(self, ctx):
+        from contracts.concat import concatenator_class
+
+        idx, stranger = ctx.case
+        me = Opaque("self", cls=concatenator_class())
+        holes = [Opaque(f"hole{i}") for i in range(3)]
+        for h in holes:
+            h.distinct = True
+        kept = PList(list(holes))
+        me.attrs["_children"] = kept
+        rm = Opaque("remove_entity")
+        rm.maybe_method = lambda I, a, kw: I.event("remove_entity", entity=a[0], listed=[x for x in kept.items])
+        me.attrs["remove_entity"] = rm
+        req = [holes[i] for i in idx]
+        if stranger:
+            s_ = Opaque("stranger")
+            s_.distinct = True
+            req.append(s_)
+        ctx.env.update(holes=holes, kept=kept, idx=idx)
+        return [me, PList(req)], {}
+
+    def post(self, ctx, result):
+        e = ctx.env
+        removed = [p["entity"] for k, p in ctx.path.events if k == "remove_entity"]
+        for i, h in enumerate(e["holes"]):
+            if i in e["idx"]:
+                ctx.oblige(f"hole{i}-is-removed-from-the-storage-once", sum(1 for r in removed if r is h) == 1)
+                ctx.oblige(f"hole{i}-leaves-the-groups-child-list", h not in e["kept"].items, note="group.children still yields the removed hole")
+            else:
+                ctx.oblige(f"hole{i}-is-kept", h in e["kept"].items and not any(r is h for r in removed))
+        ctx.oblige("nothing-the-group-does-not-hold-is-removed", all(any(r is h for h in e["holes"]) for r in removed))
+
+
+class ConcatRemoveHole(Contract):
+    """Concatenator.remove_entity on a drillhole: its children go first, then the rows of its own
+    arrays (surveys, trace, property-group ids), its identifier leaves the group's object list and
+    its attribute record is dropped -- nothing of the hole stays in the concatenated storage."""
+    target = "geoh5py/shared/concatenation/concatenator.py::Concatenator.remove_entity"
+    variant = "hole"
+    props = ("C05", "C04")
+    lenient = True
+
+    def setup(self, ctx):
+        import uuid
+
+        from contracts.concat import concatenator_class
+        from geoh5py.shared.concatenation.drillhole import ConcatenatedDrillhole
+
+        me = Opaque("self", cls=concatenator_class())
+        hole = Opaque("hole", cls=ConcatenatedDrillhole)
+        hole.attrs["uid"] = uuid.UUID(int=7)
+        key = ("{" + str(hole.attrs["uid"]) + "}").encode()
+        kids = Opaque("hole.children")
+        hole.attrs["children"] = kids
+        for f_ in ("_surveys", "_trace", "_property_groups"):
+            hole.attrs[f_] = Opaque("hole." + f_)
+        hole.attrs["parent"] = me
+        rc = Opaque("hole.remove_children")
+        rc.maybe_method = lambda I, a, kw: I.event("children-removed", what=a[0])
+        hole.attrs["remove_children"] = rc
+        ua = Opaque("update_array_attribute")
+        ua.maybe_method = lambda I, a, kw: I.event("array", entity=a[0], field=a[1], remove=kw.get("remove", a[2] if len(a) > 2 else False))
+        me.attrs["update_array_attribute"] = ua
+        ids = PList([b"{other-1}", key, b"{other-2}"])
+        me.attrs["concatenated_object_ids"] = ids
+        record = PDict({"ID": "{" + str(hole.attrs["uid"]) + "}"})
+        other = PDict({"ID": "{other}"})
+        attrs = PDict({"Attributes": PList([other, record])})
+        me.attrs["concatenated_attributes"] = attrs
+        keys = PList(["{other}", "{" + str(hole.attrs["uid"]) + "}"])
+        me.attrs["attributes_keys"] = keys
+        gca = Opaque("get_concatenated_attributes")
+        gca.maybe_method = lambda I, a, kw: record
+        me.attrs["get_concatenated_attributes"] = gca
+        ws = Opaque("workspace")
+        me.attrs["workspace"] = ws
+        ctx.env.update(me=me, hole=hole, key=key, ids=ids, attrs=attrs, keys=keys, record=record, other=other)
+        return [me, hole], {}
+
+    def post(self, ctx, result):
+        e = ctx.env
+        ev = ctx.path.events
+        kids = [i for i, (k, p) in enumerate(ev) if k == "children-removed"]
+        arrays = {p["field"]: (i, p) for i, (k, p) in enumerate(ev) if k == "array" and p["entity"] is e["hole"]}
+        ctx.oblige("the-holes-children-are-removed-first", len(kids) == 1 and all(i > kids[0] for i, _ in arrays.values()))
+        for field in ("surveys", "trace", "property_groups"):
+            ok = field in arrays and arrays[field][1]["remove"] is True
+            ctx.oblige(f"the-rows-of-the-holes-own-{field}-are-removed", ok, note=f"the hole's {field} rows stay in the concatenated arrays (stale entries)")
+        ids = e["me"].attrs.get("concatenated_object_ids")
+        listed = ids.items if isinstance(ids, PList) else list(ids or [])
+        ctx.oblige("the-hole-leaves-the-groups-object-list", e["key"] not in listed and b"{other-1}" in listed and b"{other-2}" in listed)
+        ctx.oblige("the-holes-attribute-record-is-dropped", e["record"] not in e["attrs"].items["Attributes"].items and e["other"] in e["attrs"].items["Attributes"].items)
+        ctx.oblige("the-holes-key-is-dropped", ("{" + str(e["hole"].attrs["uid"]) + "}") not in e["keys"].items and "{other}" in e["keys"].items)
+
+
+CONTRACTS = [RemoveEntityGuard, WorkspaceRemoveChildren, RemoveRecursively, RemoveDataFromGroups, ConcatRemoveChildren, ConcatRemoveHole]
